@@ -77,6 +77,26 @@ def run(rep: Report, tier: str) -> None:
 	rule_c(rep)
 	rule_d(rep)
 	rule_e(rep)
+	rule_f(rep)
+
+
+def rule_f(rep: Report) -> None:
+	"""block := "\\INDENT" (statement)+ "\\DEDENT": statement nesting is decided by the INDENT/DEDENT tokens the tokenizer synthesises at line breaks; the
+	state rules of C13 (level follows the last line, one DEDENT per closed level) are therefore obligations of C11's nesting clause as well"""
+	from checks import c13
+	idx = SourceIndex()
+	r = rep.rule('C11/block-tokens-follow-indentation', 'the INDENT/DEDENT tokens that delimit `block` are synthesised from the indentation of the new line: level assigned from Context.to_nest, one DEDENT per closed level (shared with C13/indent-state-follows-last-line)', floor=4)
+	scratch = Report('C13', rep.tier)
+	c13.rule_indent_state(scratch, idx.mod(c13.TOKENIZER_PY), idx.mod(c13.TOKEN_PY))
+	rep.consulted(c13.TOKENIZER_PY, c13.TOKEN_PY)
+	for rule in scratch.rules:
+		for o in rule.obligations:
+			if o.status == 'violated':
+				r.violate(o.key, (o.file, o.line), o.message, o.fragment)
+			elif o.message.startswith('NOT EVALUATED'):
+				r.skip(o.key, (o.file, o.line), o.message)
+			else:
+				r.ok(o.key, (o.file, o.line))
 
 
 def rule_d(rep: Report) -> None:
